@@ -37,7 +37,7 @@ def dispatch (prop : String) (args : List String) (impl : String) : R Ans :=
   | "C04" => C04.handle args impl
   | "C06" => C06.handle args impl
   | "C19" => C19.handle args impl
-  | "C12" => (match args with | "exts" :: _ => C13.handleExts args impl | _ => C13.handle args impl)
+  | "C12" => (match args with | "exts" :: _ => C13.handleExts args impl | "extsops" :: _ => C13.handleExts args impl | _ => C13.handle args impl)
   | _ => throw s!"unknown-property:{prop}"
 
 def answer (line : String) : String :=
